@@ -85,6 +85,13 @@ def Harmonised (T : Table) (p : MProf) (o : MProfOut) : Prop :=
     | none, none => o.period = Q.ofInt p.period
     | _, _ => False)
 
+/-- two node lists with the same magnitudes (signs may differ node by node) -/
+inductive SameMagnitudes : List (Int × Int) → List (Int × Int) → Prop where
+  | nil : SameMagnitudes [] []
+  | cons {x y : Int × Int} {a b : List (Int × Int)} :
+      x.1.natAbs = y.1.natAbs → x.2.natAbs = y.2.natAbs → SameMagnitudes a b →
+      SameMagnitudes (x :: a) (y :: b)
+
 /-! ## Boolean checkers -/
 
 def posQ (q : Q) : Bool := decide (0 < q.num) && decide (0 < q.den)
@@ -102,7 +109,7 @@ def factorsDistinctB (T : Table) : Bool :=
   T.all fun F => pairwiseB (fun u w => !decide (Q.eqv u.factor w.factor)) F.units
 
 /-- all aliases of a family -/
-def allAliases (F : Family) : List Str := F.units.flatMap (·.aliases)
+def allAliases (F : Family) : List Str := F.units.flatMap unitNames
 
 /-- two alias strings can never be taken for one another by `sniffUnit` (equal, or one the
 plural of the other) -/
@@ -123,8 +130,9 @@ def spellings (a : Str) : List Str :=
 /-- sniffing any listed alias, its plural (aliases of two or more bytes) and their upper-case
 spellings finds the alias's unit -/
 def everyAliasRecognisedB (T : Table) : Bool :=
-  T.all fun F => F.units.all fun u => u.aliases.all fun a =>
-    (spellings a).all fun s => sniffUnit F s == some u
+  T.all fun F => F.units.all fun u =>
+    sniffUnit F u.name == some u &&
+    u.aliases.all fun a => (spellings a).all fun s => sniffUnit F s == some u
 
 /-- the default unit of a family is one of its units (same printed name, same size) -/
 def defaultInFamilyB (T : Table) : Bool :=
